@@ -1,4 +1,5 @@
 import CircBuf.Lemmas.Tie.IterTie
+import CircBuf.Lemmas.Tie.IterSpec
 import CircBuf.Lemmas.NonDefect
 import CircBuf.Props.C08
 /-!
@@ -20,6 +21,18 @@ maybe theorem C08_over_range_src (sb eb : Bound) (s : Sys) (h : Inv s.buf) (hsb 
       it.remaining = rangeSlots s.buf.start s.buf.cap sb.startNat (eb.endNat s.buf.size) := by
   first
   | (rw [tie_iter_over_range _ _ s h]; exact C08_over_range sb eb s h hsb heb he hs)
+  -- second route (`Lemmas/Tie/IterSpec.lean`): from the specifications of the translated callees
+  | (overRangeEval Gen.Iter_over_range tie_iter_new spec_iter_advance_front_by spec_iter_advance_back_by tie_iter_empty)
+
+-- the second route alone, checked on every run
+maybe theorem C08_over_range_src_direct (sb eb : Bound) (s : Sys) (h : Inv s.buf) (hsb : sb.val < W)
+    (heb : eb.val < W) (he : eb.endNat s.buf.size ≤ s.buf.size)
+    (hs : sb.startNat ≤ eb.endNat s.buf.size) :
+    ∃ it, Gen.Iter_over_range sb eb s = (.ok it, s) ∧
+      it.remaining = rangeSlots s.buf.start s.buf.cap sb.startNat (eb.endNat s.buf.size) := by
+  first
+  | exact C08_over_range sb eb s h hsb heb he hs      -- (fallback: `Gen.Iter_over_range := Iter.overRange`)
+  | (overRangeEval Gen.Iter_over_range tie_iter_new spec_iter_advance_front_by_direct spec_iter_advance_back_by_direct tie_iter_empty)
 
 maybe theorem C08_whole_src (s : Sys) (h : Inv s.buf) :
     ∃ it, Gen.Iter_new s = (.ok it, s) ∧
